@@ -121,9 +121,10 @@ var asTypes = []string{"Object", "Link", "Activity", "IntransitiveActivity", "Co
 var litKinds = []string{"xsd:string", "xsd:anyURI", "xsd:dateTime", "xsd:duration", "xsd:boolean", "xsd:float", "xsd:nonNegativeInteger", "rdf:langString", "rfc:bcp47", "rfc:rfc2045", "rfc:rfc5988"}
 
 type extSpec struct {
-	Doc   map[string]interface{}
-	Types []string
-	Props []string
+	Doc      map[string]interface{}
+	Types    []string
+	Props    []string
+	Disjoint [][2]string // one-sided disjointWith declarations (carrier, other)
 }
 
 func classRef(name, vocabPrefix string) map[string]interface{} {
@@ -156,6 +157,7 @@ func genExtension(g *prng.R, idx int) extSpec {
 	}
 	isLinkish := map[string]bool{"Link": true, "Mention": true}
 	linkExt := map[string]bool{}
+	extAnc := map[string]map[string]bool{} // extension type -> every ancestor named so far (AS names and extension names)
 	for i, t := range es.Types {
 		// parents: existing AS types or earlier extension types; all parents on
 		// the same side of the Object/Link divide
@@ -219,6 +221,77 @@ func genExtension(g *prng.R, idx int) extSpec {
 		m := map[string]interface{}{"id": "https://ext.example/ns#" + t, "type": "owl:Class", "subClassOf": sub, "disjointWith": []interface{}{}, "name": t,
 			"notes": "Generated extension type.", "url": "https://ext.example/ns#dfn-" + strings.ToLower(t)}
 		members = append(members, m)
+		// bookkeeping for the disjointness declarations below
+		anc := map[string]bool{}
+		for _, p := range parents {
+			anc[p] = true
+			for a := range extAnc[p] {
+				anc[a] = true
+			}
+		}
+		extAnc[t] = anc
+	}
+	// One-sided disjointWith declarations (the shipped vocabularies declare
+	// every disjointness on both sides, so the generator's handling of a
+	// declaration that only one type carries is otherwise never exercised):
+	// between two extension types neither of which is an ancestor of the
+	// other, written on the earlier or on the later one, and between an
+	// extension type and a leaf ActivityStreams type outside its ancestry.
+	related := func(a, b string) bool { return a == b || extAnc[a][b] || extAnc[b][a] }
+	if idx == 0 && len(es.Types) >= 6 {
+		// The first vocabulary: the root type 0 (convertible at once)
+		// declares itself disjoint with the last type of the chain (which
+		// astool can convert only after four others), and nothing declares
+		// the reverse - finding 21: the link was lost whenever the carrier
+		// was converted first.
+		mm := members[0].(map[string]interface{})
+		mm["disjointWith"] = append(mm["disjointWith"].([]interface{}), ref(es.Types[5]))
+		es.Disjoint = append(es.Disjoint, [2]string{es.Types[0], es.Types[5]})
+	}
+	for i := 1; i < len(es.Types); i++ {
+		if !g.Chance(1, 2) {
+			continue
+		}
+		j := g.Intn(i)
+		a, b := es.Types[i], es.Types[j]
+		if related(a, b) || linkExt[a] != linkExt[b] {
+			continue
+		}
+		// no common descendant may exist: skip when a later type descends from both
+		common := false
+		for _, t := range es.Types {
+			if (t == a || extAnc[t][a]) && (t == b || extAnc[t][b]) {
+				common = true
+			}
+		}
+		if common {
+			continue
+		}
+		carrier, other := i, b
+		if g.Bool() {
+			carrier, other = j, a
+		}
+		mm := members[carrier].(map[string]interface{})
+		mm["disjointWith"] = append(mm["disjointWith"].([]interface{}), ref(other))
+		es.Disjoint = append(es.Disjoint, [2]string{es.Types[carrier], other})
+	}
+	for i, t := range es.Types {
+		if linkExt[t] || !g.Chance(1, 4) {
+			continue
+		}
+		leaf := []string{"Place", "Tombstone", "Relationship", "Profile"}[g.Intn(4)]
+		clash := false
+		for _, u := range es.Types {
+			if (u == t || extAnc[u][t]) && extAnc[u][leaf] {
+				clash = true // a type at or below t also descends from the leaf
+			}
+		}
+		if extAnc[t][leaf] || clash {
+			continue
+		}
+		mm := members[i].(map[string]interface{})
+		mm["disjointWith"] = append(mm["disjointWith"].([]interface{}), ref(leaf))
+		es.Disjoint = append(es.Disjoint, [2]string{t, "as:" + leaf})
 	}
 	for i := 0; i < nP; i++ {
 		name := fmt.Sprintf("vx%c%dProp", strings.ToLower(letters)[(idx+i)%len(letters)], i)
